@@ -318,6 +318,7 @@ def annihilation_block_singular(W, n):
 
 
 WEAK_STATE_TOL = 1e-7
+SINGLE_TOL = 1e-4
 
 
 def check_ham(ctx, s, c, M, D, const, mu, spec_reqs, model_reqs, n_occ):
@@ -338,6 +339,8 @@ def check_obj(ctx, s, c, H, Mc, D, const, spec_reqs, model_reqs, n_occ):
     n = Mc.shape[0]
     # weak pairing: nearly singular annihilation block, truncations below EQ_TOLERANCE are amplified (see c11.WEAK_TOL)
     TOL = WEAK_STATE_TOL if '+weak' in str(c.get('kind', '')) else globals()['TOL']
+    if c.get('single_precision'):
+        TOL = SINGLE_TOL     # float32 / complex64 input: LAPACK works in single precision
     Hd = dense_H(Mc, D, const)
     w = np.linalg.eigvalsh(Hd)
     try:
@@ -569,6 +572,217 @@ def stream_history(ctx):
     for (c, rq, ge, energies), a in zip(model_reqs, ans):
         if abs(rat_float(a['ground']) - ge) > TOL:
             s.disagree('ground_energy', c, ge, rat_float(a['ground']))
+    return s
+
+
+# ----------------------------------------------------------------------------- (T) types / (S) arguments untouched
+
+DTYPES = ['int64', 'int32', 'float32', 'float64', 'complex64', 'complex128', 'fortran', 'noncontiguous']
+
+
+def typed(A, kind):
+    """the same (exactly representable) values as another array type; None if the values do not fit the type"""
+    A = np.asarray(A)
+    if kind in ('int64', 'int32'):
+        if np.abs(A.imag).max() != 0 or np.abs(A.real - np.round(A.real)).max() != 0:
+            return None
+        return A.real.astype(kind)
+    if kind in ('float32', 'float64'):
+        if np.abs(A.imag).max() != 0:
+            return None
+        return A.real.astype(kind)
+    if kind in ('complex64', 'complex128'):
+        return A.astype(kind)
+    if kind == 'fortran':
+        return np.asfortranarray(A.astype(complex))
+    if kind == 'noncontiguous':
+        big = np.zeros((2 * A.shape[0], 2 * A.shape[1]), dtype=complex)
+        big[::2, ::2] = A
+        return big[::2, ::2]
+    raise AssertionError(kind)
+
+
+def typed_scalar(x, kind):
+    return {'pyint': lambda: int(x) if float(x).is_integer() else None, 'pyfloat': lambda: float(x),
+            'np.float64': lambda: np.float64(x), 'np.float32': lambda: np.float32(x),
+            'np.int64': lambda: np.int64(x) if float(x).is_integer() else None}[kind]()
+
+
+def stream_types(ctx):
+    s = Stream('types', '(T) the same exactly representable Hamiltonians / isometries / antisymmetric matrices passed as int64, '
+               'int32, float32, float64, complex64, complex128, Fortran-ordered and non-contiguous arrays, with Python / numpy '
+               'scalar constants and chemical potentials (types the implementation rejects on a probe input are excluded for the '
+               'run): all oracles against the float64 reference; (S) arguments are not modified, a second call after scribbling '
+               'over the first result returns the same values; distinct = distinct (values, types)')
+    of = ctx.of
+    QH = of.ops.QuadraticHamiltonian
+    from openfermion.ops.representations.quadratic_hamiltonian import antisymmetric_canonical_form
+    rng = rng_for(ctx.seed, 'c12-types')
+    N = budget(ctx.tier, 70, 600)
+    if ctx.drift:
+        N = max(N, 250)
+    # ---- probe: which (array type) does the implementation accept at all?
+    accepted = []
+    for k in DTYPES:
+        try:
+            Mp = typed(np.diag([1.0, -2.0]), k)
+            Hp = QH(Mp, None, 0.0, 0.5)
+            Hp.diagonalizing_bogoliubov_transform()
+            accepted.append(k)
+        except Exception:
+            s.count('type-rejected:' + k)
+    spec_reqs, model_reqs = [], []
+    for t in range(N):
+        n = rng.choice([2, 2, 3, 3, 4])
+        integer = rng.random() < 0.6
+        # values: integers (so that integer dtypes apply) or dyadics; chemical potential deliberately non-integer
+        M = np.zeros((n, n), dtype=complex)
+        for i in range(n):
+            M[i, i] = rng.choice([-3, -2, -1, 0, 1, 2, 3]) if integer else rng.choice([-1.5, -0.5, 0.25, 1.0, 2.5])
+            for j in range(i + 1, n):
+                if rng.random() < 0.6:
+                    v = rng.choice([-2, -1, 1, 2]) if integer else rng.choice([-0.5, 0.25, 1.0])
+                    if not integer and rng.random() < 0.3:
+                        v = v * 1j
+                    M[i, j] = v
+                    M[j, i] = np.conj(v)
+        D = None
+        if rng.random() < 0.4:
+            D = np.zeros((n, n), dtype=complex)
+            i, j = rng.sample(range(n), 2)
+            v = rng.choice([1, 2, -1]) if integer else rng.choice([0.5, -1.0, 0.5j])
+            D[i, j] = v
+            D[j, i] = -v
+        mu = rng.choice([0.5, 1.5, -0.5, 2.0, 0.0, 0.25])
+        const = rng.choice([0.0, 1.0, -2.0, 0.5])
+        kM = rng.choice(accepted)
+        kD = rng.choice(accepted)
+        kmu = rng.choice(['pyfloat', 'np.float64', 'np.float32', 'pyint', 'np.int64'])
+        kc = rng.choice(['pyfloat', 'np.float64', 'np.float32', 'pyint', 'np.int64'])
+        Mt = typed(M, kM)
+        Dt = None if D is None else typed(D, kD)
+        mut, ct = typed_scalar(mu, kmu), typed_scalar(const, kc)
+        if Mt is None or (D is not None and Dt is None) or mut is None or ct is None:
+            s.count('values-do-not-fit-type')
+            continue
+        c = {'kind': 'types', 'n': n, 'M': [[[x.real, x.imag] for x in r] for r in M], 'M_type': kM,
+             'Delta': None if D is None else [[[x.real, x.imag] for x in r] for r in D], 'Delta_type': kD if D is not None else None,
+             'const': float(const), 'const_type': kc, 'mu': float(mu), 'mu_type': kmu,
+             'single_precision': kM in ('float32', 'complex64') or (D is not None and kD in ('float32', 'complex64'))}
+        s.case(c)
+        s.count('M:' + kM)
+        s.count('mu:' + kmu)
+        Mt0, Dt0 = Mt.copy(), None if Dt is None else Dt.copy()
+        try:
+            H = QH(Mt, Dt, ct, mut)
+        except Exception as e:
+            s.violate('QuadraticHamiltonian(%s array, mu %s) raised %s: %s' % (kM, kmu, type(e).__name__, e), c, {})
+            continue
+        before = len(s.violations)
+        check_obj(ctx, s, c, H, M - mu * np.eye(n), D, const, spec_reqs, model_reqs, 3)
+        # (S) arguments untouched
+        if not np.array_equal(Mt, Mt0) or Mt.dtype != Mt0.dtype or (Dt is not None and not np.array_equal(Dt, Dt0)):
+            s.violate('the constructor / diagonalisation modified its array arguments', c, {})
+        # (S) scribble over the returned arrays, ask again
+        if len(s.violations) == before:
+            try:
+                es1, W1, c1 = H.diagonalizing_bogoliubov_transform()
+                ref = (np.array(es1, dtype=float).copy(), np.array(W1).copy(), complex(c1))
+                np.asarray(es1)[...] = 7.0
+                np.asarray(W1)[...] = 0.0
+                es2, W2, c2 = H.diagonalizing_bogoliubov_transform()
+                s.float_comparisons += 2
+                if err(np.asarray(es2, dtype=float) - ref[0]) > 0 or err(np.asarray(W2) - ref[1]) > 0 or abs(complex(c2) - ref[2]) > 0:
+                    s.violate('diagonalizing_bogoliubov_transform returns different values after its first result was '
+                              'overwritten in place (result aliases internal state)', c, {})
+                A1, k1 = H.majorana_form()
+                Aref = np.array(A1).copy()
+                np.asarray(A1)[...] = 5.0
+                A2, k2 = H.majorana_form()
+                if err(np.asarray(A2) - Aref) > 0:
+                    s.violate('majorana_form returns different values after its first result was overwritten', c, {})
+            except Exception as e:
+                s.violate('second call raised %s: %s' % (type(e).__name__, e), c, {})
+    ans = ctx.driver.run([r for _, r, _, _ in spec_reqs])
+    for (c, _, w, ret), a in zip(spec_reqs, ans):
+        s.count('oracle:subset-sum-spectrum')
+        sp = np.array([rat_float(x) for x in a['spectrum']])
+        s.float_comparisons += len(sp)
+        if sp.shape != w.shape or err(sp - w) > (SINGLE_TOL if c.get('single_precision') else TOL):
+            s.violate('subset sums of the orbital energies + constant are not the spectrum of H', c,
+                      dict(ret, subset_sums=sp.tolist(), spectrum=w.tolist()))
+    # ---- typed isometries for jw_slater_determinant and typed antisymmetric matrices
+    acc_q, acc_a = [], []
+    for k in DTYPES:
+        try:
+            of.circuits.jw_slater_determinant(typed(np.eye(2)[:1], k))
+            acc_q.append(k)
+        except Exception:
+            s.count('slater-type-rejected:' + k)
+        try:
+            antisymmetric_canonical_form(typed(np.array([[0.0, 1.0], [-1.0, 0.0]]), k))
+            acc_a.append(k)
+        except Exception:
+            s.count('canonical-type-rejected:' + k)
+    for t in range(N // 2):
+        n = rng.choice([2, 3, 4])
+        m = rng.randint(1, n)
+        perm = rng.sample(range(n), n)
+        signs = [rng.choice([1, -1]) for _ in range(n)]
+        U = np.zeros((n, n))
+        for i in range(n):
+            U[i, perm[i]] = signs[i]
+        Q = U[:m]
+        k = rng.choice(acc_q)
+        Qt = typed(Q, k)
+        if Qt is not None:
+            c = {'kind': 'types-slater', 'Q': Q.tolist(), 'type': k}
+            s.case(c)
+            Q0 = Qt.copy()
+            try:
+                psi = np.asarray(of.circuits.jw_slater_determinant(Qt)).reshape(-1)
+                ref = np.zeros(2 ** n, dtype=complex)
+                ref[0] = 1.0
+                for j in reversed(range(m)):
+                    ref = bdag(Q.astype(complex), n, j) @ ref
+                s.float_comparisons += 2
+                if abs(np.linalg.norm(psi) - 1) > TOL or abs(abs(np.vdot(ref, psi)) - 1) > TOL:
+                    s.violate('jw_slater_determinant(%s array) is not b+_1..b+_eta|vac> up to a phase' % k, c, {})
+                if not np.array_equal(Qt, Q0):
+                    s.violate('jw_slater_determinant modified its argument', c, {})
+            except Exception as e:
+                s.violate('jw_slater_determinant(%s array) raised %s: %s' % (k, type(e).__name__, e), c, {})
+        # antisymmetric integer matrix
+        p = 2 * rng.choice([1, 2, 3])
+        A = np.zeros((p, p))
+        for i in range(p):
+            for j in range(i + 1, p):
+                if rng.random() < 0.5:
+                    v = rng.choice([-2, -1, 1, 2, 3])
+                    A[i, j] = v
+                    A[j, i] = -v
+        k = rng.choice(acc_a)
+        At = typed(A, k)
+        if At is not None and not np.iscomplexobj(At):
+            c = {'kind': 'types-canonical', 'A': A.tolist(), 'type': k}
+            s.case(c)
+            A0 = At.copy()
+            try:
+                C, R = antisymmetric_canonical_form(At)
+                nn = p // 2
+                Dg = np.diag(C[:nn, nn:])
+                shape = np.zeros((p, p))
+                shape[range(nn), range(nn, p)] = Dg
+                shape[range(nn, p), range(nn)] = -Dg
+                s.float_comparisons += 4
+                tl = SINGLE_TOL if k == 'float32' else TOL
+                if (err(R.T @ C @ R - A) > tl or err(R @ R.T - np.eye(p)) > tl or err(C - shape) > tl or Dg.min() < -tl
+                        or np.any(np.diff(Dg) < -tl)):
+                    s.violate('antisymmetric_canonical_form(%s array): A != R^T C R or wrong canonical shape' % k, c, {})
+                if not np.array_equal(At, A0):
+                    s.violate('antisymmetric_canonical_form modified its argument', c, {})
+            except Exception as e:
+                s.violate('antisymmetric_canonical_form(%s array) raised %s: %s' % (k, type(e).__name__, e), c, {})
     return s
 
 
@@ -807,4 +1021,5 @@ def replay(ctx, payload):
 
 
 def run(ctx):
-    return [stream_majorana(ctx), stream_energies(ctx), stream_history(ctx), stream_slater(ctx), stream_canonical(ctx)]
+    return [stream_majorana(ctx), stream_energies(ctx), stream_history(ctx), stream_types(ctx), stream_slater(ctx),
+            stream_canonical(ctx)]
